@@ -16,6 +16,7 @@ import (
 	"net/http"
 	"net/http/httptest"
 	"net/url"
+	"sort"
 	"strconv"
 	"strings"
 
@@ -239,10 +240,8 @@ func c13RunBasic(c *c13Case) (res Result) {
 	if c.Ctor >= 2 {
 		validator = nil
 	}
-	ops := []string{"0", wInt(c.Ctor), wBool(c.skipped()), wStr(c.Realm), wStr(strconv.Quote(c.Realm)), wInt(len(c.Auth))}
-	for _, a := range c.Auth {
-		ops = append(ops, wBytes(a))
-	}
+	ops := []string{"0", wInt(c.Ctor), wBool(c.skipped()), wStr(c.Realm), wStr(strconv.Quote(c.Realm))}
+	ops = append(ops, c13HeadOps(c13BasicRequest(c))...)
 	ops = append(ops, c13Table(c, true))
 	res.Ops = strings.Join(ops, " ")
 
@@ -338,11 +337,94 @@ func c13RunBasic(c *c13Case) (res Result) {
 	if c.Method != "" && c.Method != http.MethodGet {
 		res.Tags = append(res.Tags, "basic:method-"+c.Method)
 	}
+	c13DecoyTags(&res, req, "basic")
 	if derived && !wellFormed {
 		res.Tags = append(res.Tags, "basic:separator-not-space")
 	}
 	res.Nontrivial = len(calls) > 0 || rec.Code == 400
 	return res
+}
+
+// the request head as the model gets it: method, then every header line (canonical name, value), names sorted
+func c13HeadOps(req *http.Request) []string {
+	var names []string
+	n := 0
+	for k, vs := range req.Header {
+		names = append(names, k)
+		n += len(vs)
+	}
+	sort.Strings(names)
+	out := []string{wStr(req.Method), wInt(n)}
+	for _, k := range names {
+		for _, v := range req.Header[k] {
+			out = append(out, wStr(k), wStr(v))
+		}
+	}
+	return out
+}
+
+// request headers a short-cut might key on (none of them is a place credentials are looked up at)
+var c13DecoyPool = [][2]string{
+	{"Access-Control-Request-Method", "GET"}, {"Access-Control-Request-Method", "POST"}, {"Access-Control-Request-Method", "DELETE"},
+	{"Access-Control-Request-Headers", "authorization, content-type"}, {"Origin", "https://app.example.com"}, {"Origin", "null"},
+	{"X-Requested-With", "XMLHttpRequest"}, {"Upgrade", "websocket"}, {"Connection", "Upgrade"}, {"Connection", "keep-alive, Upgrade"},
+	{"Sec-Websocket-Key", "dGhlIHNhbXBsZSBub25jZQ=="}, {"Sec-Fetch-Mode", "cors"}, {"Sec-Fetch-Site", "same-origin"}, {"Sec-Fetch-Dest", "empty"},
+	{"X-Forwarded-For", "127.0.0.1"}, {"X-Forwarded-Proto", "https"}, {"X-Forwarded-Host", "localhost"}, {"X-Real-Ip", "::1"},
+	{"X-Http-Method-Override", "GET"}, {"X-Forwarded-User", "admin"}, {"X-Authenticated", "true"}, {"Remote-User", "admin"},
+	{"Accept", "text/event-stream"}, {"User-Agent", "kube-probe/1.27"}, {"User-Agent", "ELB-HealthChecker/2.0"}, {"Referer", "https://app.example.com/login"},
+	{"Expect", "100-continue"}, {"Purpose", "prefetch"}, {"Content-Type", "application/json"}, {"Content-Length-Hint", "0"},
+}
+
+// c13Decoys: 1-4 such headers; often the complete shape of a CORS preflight / a websocket upgrade
+func c13Decoys(r *rand.Rand, c *c13Case) {
+	add := func(k, v string) {
+		if k == "Content-Type" && (len(c.Form) > 0 || len(c.RawBody) > 0) {
+			return // would change how the body is parsed
+		}
+		c.Headers = append(c.Headers, c13Hdr{Name: k, Values: [][]byte{[]byte(v)}})
+	}
+	switch r.Intn(4) {
+	case 0: // preflight shape
+		if c.Method == "" || r.Intn(2) == 0 {
+			if len(c.Form) == 0 && len(c.RawBody) == 0 {
+				c.Method = http.MethodOptions
+			}
+		}
+		add("Access-Control-Request-Method", c13Pick(r, []string{"GET", "POST", "PUT", "DELETE"}))
+		add("Origin", c13Pick(r, []string{"https://app.example.com", "null", "http://localhost:3000"}))
+		if r.Intn(2) == 0 {
+			add("Access-Control-Request-Headers", "authorization")
+		}
+	case 1: // upgrade shape
+		add("Upgrade", "websocket")
+		add("Connection", "Upgrade")
+		if r.Intn(2) == 0 {
+			add("Sec-Websocket-Key", "dGhlIHNhbXBsZSBub25jZQ==")
+		}
+	default:
+		for k := 1 + r.Intn(3); k > 0; k-- {
+			d := c13Pick(r, c13DecoyPool)
+			add(d[0], d[1])
+		}
+	}
+}
+
+func c13DecoyTags(res *Result, req *http.Request, kind string) {
+	if req.Header.Get("Access-Control-Request-Method") != "" {
+		res.Tags = append(res.Tags, kind+":decoy-preflight-headers")
+		if req.Method == http.MethodOptions {
+			res.Tags = append(res.Tags, kind+":decoy-complete-preflight")
+		}
+	}
+	if req.Header.Get("Upgrade") != "" {
+		res.Tags = append(res.Tags, kind+":decoy-upgrade")
+	}
+	for _, k := range []string{"X-Requested-With", "X-Forwarded-For", "X-Forwarded-User", "X-Http-Method-Override", "User-Agent", "Sec-Fetch-Mode"} {
+		if req.Header.Get(k) != "" {
+			res.Tags = append(res.Tags, kind+":decoy-other")
+			break
+		}
+	}
 }
 
 func c13BasicRequest(c *c13Case) *http.Request {
@@ -351,6 +433,12 @@ func c13BasicRequest(c *c13Case) *http.Request {
 		method = http.MethodGet
 	}
 	req := httptest.NewRequest(method, "/", nil)
+	for _, h := range c.Headers {
+		k := http.CanonicalHeaderKey(h.Name)
+		for _, v := range h.Values {
+			req.Header[k] = append(req.Header[k], string(v))
+		}
+	}
 	for _, a := range c.Auth {
 		req.Header["Authorization"] = append(req.Header["Authorization"], string(a))
 	}
@@ -737,6 +825,22 @@ func c13RunKey(c *c13Case) (res Result) {
 	if len(c.Params) == 22 {
 		res.Tags = append(res.Tags, "key:22-path-params")
 	}
+	for i, sc := range srcs {
+		if len(located[i]) == 0 {
+			continue
+		}
+		switch sc.kind {
+		case "query":
+			if !strings.Contains(c13Request(c).URL.RawQuery, url.QueryEscape(sc.name)+"=") {
+				res.Tags = append(res.Tags, "key:query-name-spelled-noncanonically")
+			}
+		case "form":
+			if len(c.RawBody) > 0 && !c.Multipart && !strings.Contains(c13EncodePairs(c.Form), url.QueryEscape(sc.name)+"=") {
+				res.Tags = append(res.Tags, "key:form-name-spelled-noncanonically")
+			}
+		}
+	}
+	c13DecoyTags(&res, c13Request(c), "key")
 	if c.Method != "" {
 		res.Tags = append(res.Tags, "key:method-"+c.Method)
 	}
@@ -849,10 +953,8 @@ func c13RunStack(c *c13Case) (res Result) {
 	cfgOK := true
 	for i, l := range layers {
 		if l.Mode == 0 {
-			ops = append(ops, "0", wInt(l.Ctor), wBool(l.skipped()), wStr(l.Realm), wStr(strconv.Quote(l.Realm)), wInt(len(authValues)))
-			for _, a := range authValues {
-				ops = append(ops, wStr(a))
-			}
+			ops = append(ops, "0", wInt(l.Ctor), wBool(l.skipped()), wStr(l.Realm), wStr(strconv.Quote(l.Realm)))
+			ops = append(ops, c13HeadOps(probeReq)...)
 			ops = append(ops, c13Table(l, true))
 			continue
 		}
@@ -1164,6 +1266,28 @@ func c13GenStack(r *rand.Rand) *c13Case {
 			l.Cont = r.Intn(4) == 0
 			if r.Intn(6) == 0 {
 				l.Ctor = 1
+			}
+			if r.Intn(3) == 0 {
+				// the same KeyLookup string, ANOTHER AuthScheme: the cut-prefix of `header:Authorization` differs, and the
+				// request carries one Authorization line per scheme with a key this instance accepts
+				l.Lookup, l.Ctor = top.Lookup, 0
+				l.Scheme = c13Pick(r, []string{"Token", "ApiKey", "Bearer", "Basic", "K"})
+				if l.Scheme == top.Scheme || (top.Scheme == "" && l.Scheme == "Bearer") {
+					l.Scheme = "Inner"
+				}
+				k := c13Pick(r, []string{"inner-key", "tok", "T0k/+="})
+				l.Table = append(l.Table, c13Entry{U: []byte(k), Out: 1})
+				added := false
+				for i := range top.Headers {
+					if http.CanonicalHeaderKey(top.Headers[i].Name) == "Authorization" {
+						top.Headers[i].Values = append(top.Headers[i].Values, []byte(l.Scheme+" "+k))
+						added = true
+						break
+					}
+				}
+				if !added {
+					top.Headers = append(top.Headers, c13Hdr{Name: "Authorization", Values: [][]byte{[]byte(l.Scheme + " " + k)}})
+				}
 			}
 		}
 		if r.Intn(8) == 0 {
@@ -1564,6 +1688,9 @@ func c13GenBasic(r *rand.Rand) *c13Case {
 	if r.Intn(5) == 0 {
 		c.Method = c13Pick(r, c13Methods)
 	}
+	if r.Intn(3) == 0 {
+		c13Decoys(r, c)
+	}
 	cred := u + ":" + p
 	switch r.Intn(12) {
 	case 0:
@@ -1847,6 +1974,9 @@ func c13GenKey(r *rand.Rand) *c13Case {
 						return c
 					}, v)
 				}
+				if r.Intn(8) == 0 && !strings.ContainsAny(v, "\";\\ ,") {
+					v = `"` + v + `"` // quoted cookie value: net/http strips the quotes
+				}
 				parts = append(parts, name+"="+v)
 			}
 			if r.Intn(5) == 0 {
@@ -1882,6 +2012,26 @@ func c13GenKey(r *rand.Rand) *c13Case {
 				c.RawFirst = r.Intn(2) == 0
 			}
 		}
+	}
+	// the looked-up pairs themselves in non-canonical spelling (after the decoration above, which assigns the raw lists)
+	for _, sp := range specs {
+		switch sp.kind {
+		case "query":
+			if r.Intn(3) == 0 {
+				var raw []string
+				c.Query, raw = c13SpellPairs(r, c.Query, sp.name)
+				c.RawQuery = append(c.RawQuery, raw...)
+			}
+		case "form":
+			if !c.Multipart && r.Intn(3) == 0 {
+				var raw []string
+				c.Form, raw = c13SpellPairs(r, c.Form, sp.name)
+				c.RawBody = append(c.RawBody, raw...)
+			}
+		}
+	}
+	if r.Intn(3) == 0 {
+		c13Decoys(r, c)
 	}
 	// a key at a location that is NOT configured must never count: the usual places tokens travel in
 	if r.Intn(4) == 0 {
@@ -1927,6 +2077,55 @@ func c13GenKey(r *rand.Rand) *c13Case {
 
 var c13RawPool = []string{"utm=%zz", "note=100%", "x=%", "a;b=1", ";", "q=a;b", "%gg=1", "dup=1&dup=2&dup=1", "=novalue", "novalue", "",
 	"k=%41%", "other=%e9", "sp=a+b", "json={\"a\":1}", "key2=tok", "a=1;key=tok", "&&", "x=%4", "%=1"}
+
+// c13EncLoose spells a name or value the way some client might: every byte that must be escaped is (upper- or lower-case
+// hex, blank as `+` or `%20`), and bytes that need no escaping are escaped now and then as well
+func c13EncLoose(r *rand.Rand, s string) string {
+	var b strings.Builder
+	for i := 0; i < len(s); i++ {
+		ch := s[i]
+		plain := ch >= 'a' && ch <= 'z' || ch >= 'A' && ch <= 'Z' || ch >= '0' && ch <= '9' || ch == '-' || ch == '_' || ch == '.' || ch == '~'
+		switch {
+		case ch == ' ' && r.Intn(2) == 0:
+			b.WriteByte('+')
+		case !plain || r.Intn(4) == 0:
+			if r.Intn(2) == 0 {
+				fmt.Fprintf(&b, "%%%02X", ch)
+			} else {
+				fmt.Fprintf(&b, "%%%02x", ch)
+			}
+		default:
+			b.WriteByte(ch)
+		}
+	}
+	return b.String()
+}
+
+// c13SpellPairs turns well-formed pairs into raw fragments in non-canonical spelling (escaped letters in the NAME, `%20`
+// for `+`, a bare name for an empty value, brackets left alone); what they mean is decided by net/http on the wire form
+func c13SpellPairs(r *rand.Rand, kvs []c13KV, name string) (keep []c13KV, raw []string) {
+	for _, kv := range kvs {
+		if string(kv.K) != name {
+			keep = append(keep, kv)
+			continue
+		}
+		n := c13EncLoose(r, name)
+		if n == url.QueryEscape(name) && len(name) > 0 {
+			// make sure the name is not spelled canonically
+			i := r.Intn(len(name))
+			n = url.QueryEscape(name[:i]) + fmt.Sprintf("%%%02x", name[i]) + url.QueryEscape(name[i+1:])
+		}
+		switch {
+		case len(kv.V) == 0 && r.Intn(2) == 0:
+			raw = append(raw, n) // bare name
+		case r.Intn(6) == 0:
+			raw = append(raw, n+"="+string(kv.V)) // value as it is (may be malformed: then net/http drops the pair)
+		default:
+			raw = append(raw, n+"="+c13EncLoose(r, string(kv.V)))
+		}
+	}
+	return keep, raw
+}
 
 // 1-3 raw fragments for the rest of a query string / urlencoded body: bad escapes, semicolons, duplicates, a very
 // long field, and now and then a malformed field under the looked-up name itself
@@ -2193,14 +2392,49 @@ func c13Shrink(ci any) []any {
 	return out
 }
 
+// c13Mutate: neighbours of a case on which model and code disagree that turn the disagreement into a failure of the
+// property itself: a validator that accepts everything (a lost or altered credential then shows as "accepted credentials
+// did not reach the handler" / "called with something not in the request"), one that refuses everything, no ErrorHandler
+func c13Mutate(r *rand.Rand, ci any) []any {
+	c := ci.(*c13Case)
+	if c.Mode == 2 {
+		return nil
+	}
+	var out []any
+	all := func(v int) {
+		d := c13Clone(c)
+		set := func(x *c13Case) {
+			x.Default = v
+			for i := range x.Table {
+				x.Table[i].Out = v
+			}
+		}
+		set(d)
+		for _, l := range d.Stack {
+			set(l)
+		}
+		out = append(out, d)
+		e := c13Clone(d)
+		e.EH, e.Cont, e.Skipper, e.ErrValid = 0, false, 0, false
+		for _, l := range e.Stack {
+			l.EH, l.Cont, l.Skipper, l.ErrValid = 0, false, 0, false
+		}
+		out = append(out, e)
+	}
+	all(1)
+	all(0)
+	return out
+}
+
 func init() {
 	register(&Prop{
 		ID:             "C13",
-		Rule:           "sequential cases (compared with the model): half BasicAuth, half KeyAuth; plus 1/8 as many overlapping streams (oracle only): ONE middleware instance, 2-3 requests with multi-value headers / several lookup sources, request i stops inside its k-th validator call (channels, no timing) until request i+1 has been served completely, every request judged on its own by the same oracle. Sequential cases: Basic: Authorization values assembled from scheme (casings, truncated, foreign, with U+017F / U+212A / invalid bytes) + separator (space, none, other) + payload (std base64 of user:password incl. empty parts, colons in the password, non-UTF-8; unpadded, URL alphabet, CR/LF inside, truncated, trailing garbage, foreign character, non-zero trailing bits, raw), 0-3 header lines, validator table keyed by credentials (the intended pair + near misses such as the split at the last colon) with outcomes true/false/error((false|true),err). Key: 1-3 lookup sources (header with scheme prefix / explicit cut prefix / none, query, form, cookie, param), 0-23 values per location with prefix variants; for form / query sources the REST of the body / query string is partly malformed (bad %-escapes, semicolons, duplicate and 3-7 KB fields, a malformed field under the looked-up name) in front of or behind the well-formed key, multipart/form-data bodies with mixed-case media types, extra parameters and odd boundaries, urlencoded media-type spellings, non-form media types, PUT/PATCH/DELETE/GET with a body, body combined with query string, ErrorHandler absent / returns nil / passes / returns HTTPError, ContinueOnIgnoredError. Non-trivial = the validator was called or the base64 text was rejected; distinct = distinct model op lines. Round 4: both middlewares through ...WithConfig or the convenience constructors BasicAuth(fn) / KeyAuth(fn) (rarely with a nil validator: constructor panic), default or custom Skipper (skips the requests carrying a marker header, also inside the overlapping streams), request methods incl. OPTIONS / HEAD / TRACE / PROPFIND; Basic: user / password with CR, LF, blanks, NUL, NBSP, quotes, %20 at their borders, validator table holding every normalised reading (trimmed, lower-cased, unescaped) mostly as acceptable, the WWW-Authenticate challenge compared for default / custom realms; Key: route with 22 path parameters (looked-up name at indices 0, 5, 18-21), the key at popular locations that are NOT configured (query access_token / token / key / api_key, headers X-Api-Key / X-Auth-Token / Proxy-Authorization, cookies, form fields), ErrKeyAuthMissing unwrapped inside the ErrorHandler; round 5: 1/6 as many cases with 2-3 instances on the path of ONE request (e.Use + group + route level): BasicAuth twice / three times, KeyAuth behind BasicAuth on the same Authorization header (cut-prefix `Basic `), KeyAuth twice with the sources reordered or narrowed, BasicAuth behind KeyAuth, inner validators that mostly accept what the outer one accepts, per-instance Skipper / ErrorHandler / constructor; a pass-through marker behind every instance tells whether it passed the request on, and each instance is judged by the unchanged oracle on the request AS SENT (accepted well-formed credentials must pass THIS instance; its validator calls must be literal; an instance that was not reached must not have been asked); plus 1/10 as many cases through the exported CreateExtractors(lookups) (no defaults, empty string, malformed strings), every extractor applied to the request inside a handler",
+		Rule:           "sequential cases (compared with the model): half BasicAuth, half KeyAuth; plus 1/8 as many overlapping streams (oracle only): ONE middleware instance, 2-3 requests with multi-value headers / several lookup sources, request i stops inside its k-th validator call (channels, no timing) until request i+1 has been served completely, every request judged on its own by the same oracle. Sequential cases: Basic: Authorization values assembled from scheme (casings, truncated, foreign, with U+017F / U+212A / invalid bytes) + separator (space, none, other) + payload (std base64 of user:password incl. empty parts, colons in the password, non-UTF-8; unpadded, URL alphabet, CR/LF inside, truncated, trailing garbage, foreign character, non-zero trailing bits, raw), 0-3 header lines, validator table keyed by credentials (the intended pair + near misses such as the split at the last colon) with outcomes true/false/error((false|true),err). Key: 1-3 lookup sources (header with scheme prefix / explicit cut prefix / none, query, form, cookie, param), 0-23 values per location with prefix variants; for form / query sources the REST of the body / query string is partly malformed (bad %-escapes, semicolons, duplicate and 3-7 KB fields, a malformed field under the looked-up name) in front of or behind the well-formed key, multipart/form-data bodies with mixed-case media types, extra parameters and odd boundaries, urlencoded media-type spellings, non-form media types, PUT/PATCH/DELETE/GET with a body, body combined with query string, ErrorHandler absent / returns nil / passes / returns HTTPError, ContinueOnIgnoredError. Non-trivial = the validator was called or the base64 text was rejected; distinct = distinct model op lines. Round 4: both middlewares through ...WithConfig or the convenience constructors BasicAuth(fn) / KeyAuth(fn) (rarely with a nil validator: constructor panic), default or custom Skipper (skips the requests carrying a marker header, also inside the overlapping streams), request methods incl. OPTIONS / HEAD / TRACE / PROPFIND; Basic: user / password with CR, LF, blanks, NUL, NBSP, quotes, %20 at their borders, validator table holding every normalised reading (trimmed, lower-cased, unescaped) mostly as acceptable, the WWW-Authenticate challenge compared for default / custom realms; Key: route with 22 path parameters (looked-up name at indices 0, 5, 18-21), the key at popular locations that are NOT configured (query access_token / token / key / api_key, headers X-Api-Key / X-Auth-Token / Proxy-Authorization, cookies, form fields), ErrKeyAuthMissing unwrapped inside the ErrorHandler; round 5: 1/6 as many cases with 2-3 instances on the path of ONE request (e.Use + group + route level): BasicAuth twice / three times, KeyAuth behind BasicAuth on the same Authorization header (cut-prefix `Basic `), KeyAuth twice with the sources reordered or narrowed, BasicAuth behind KeyAuth, inner validators that mostly accept what the outer one accepts, per-instance Skipper / ErrorHandler / constructor; a pass-through marker behind every instance tells whether it passed the request on, and each instance is judged by the unchanged oracle on the request AS SENT (accepted well-formed credentials must pass THIS instance; its validator calls must be literal; an instance that was not reached must not have been asked); round 6: 1/3 of the Basic and Key requests carry decoy headers (the complete shape of a CORS preflight: OPTIONS + Access-Control-Request-Method + Origin; of a websocket upgrade; X-Requested-With, X-Forwarded-*, X-Forwarded-User, Remote-User, X-Http-Method-Override, probe User-Agents, Sec-Fetch-*), the whole request head is the BasicAuth model's input; for query / form sources the looked-up pairs are spelled non-canonically in 1/3 of the cases (percent-encoded letters in the NAME, upper / lower hex, `%20` vs `+`, bare name for an empty value, raw values), cookie values quoted; KeyAuth stacks whose instances differ only in AuthScheme (one Authorization line per scheme); Mutate hook (validator accepting / refusing everything) for the failing-input search; plus 1/10 as many cases through the exported CreateExtractors(lookups) (no defaults, empty string, malformed strings), every extractor applied to the request inside a handler",
 		New:            func() any { return &c13Case{} },
 		Gen:            c13Gen,
 		Run:            c13Run,
 		Shrink:         c13Shrink,
+		Mutate:         c13Mutate,
 		Correspondence: "C13.basicAuthMW + wwwValue / C13.keyAuthMW / C13.authStack / C13.createExtractors + extract (lean/EchoModel/C13.lean) vs middleware.BasicAuth / BasicAuthWithConfig / KeyAuth / KeyAuthWithConfig / CreateExtractors",
 	})
 }
